@@ -334,6 +334,17 @@ impl Scenario for In {
     type Cfg = InCfg;
     type Ev = Ev;
 
+    fn progress_marker(&self) -> Option<u64> {
+        let g = |g: &Gates| (g.entered() * 31 + g.waiting().len() * 7 + g.executing()) as u64;
+        Some(
+            self.conn.log.snapshot().len() as u64 * 1_000_003
+                + self.conn.wire.len() as u64 * 1_009
+                + self.conn.sent.len() as u64 * 17
+                + g(&self.conn.gates) * 101
+                + g(&self.conn.pgates) * 103,
+        )
+    }
+
     fn build(cfg: &InCfg) -> Pin<Box<dyn Future<Output = Self>>> {
         let cfg = cfg.clone();
         Box::pin(async move {
